@@ -245,13 +245,24 @@ func runCase(c c12Case) (f *vh.Failure) {
 	}()
 	info := &tds.Info{Info: dsn.Info{Host: "127.0.0.1"}, Network: "tcp", ChannelPackageQueueSize: 1000, PacketReadTimeout: 5}
 	if c.TCP {
-		ln, err := net.Listen("tcp", "127.0.0.1:0")
-		if err != nil {
-			vh.Note("loopback listen failed: %v (TCP slice skipped)", err)
-			return nil
+		var ln net.Listener
+		var port string
+		for {
+			var err error
+			ln, err = net.Listen("tcp", "127.0.0.1:0")
+			if err != nil {
+				vh.Note("loopback listen failed: %v (TCP slice skipped)", err)
+				return nil
+			}
+			_, port, _ = net.SplitHostPort(ln.Addr().String())
+			// NewConn switches to TLS for every port that reads "443" once its zeros are removed
+			// (4430, 40403, 44300, ...); the handshake with this plain peer would never end
+			if strings.ReplaceAll(port, "0", "") != "443" {
+				break
+			}
+			ln.Close()
 		}
 		cleanup = append(cleanup, func() { ln.Close() })
-		_, port, _ := net.SplitHostPort(ln.Addr().String())
 		info.Port = port
 		accepted := make(chan net.Conn, 1)
 		go func() {
